@@ -8,7 +8,7 @@ import time
 from ..common import Rng, Report, budget, ckey
 from ..registry import SPECS, Spec, fresh_cfg, public_cfg, new_metric
 from ..engine import observe, same_obs, obs_json, snapshot, snap_equal
-from ..hist import random_ops, apply_op, describe_ops, same_step
+from ..hist import f64_ops, random_ops, apply_op, describe_ops, same_step
 from torcheval.metrics.toolkit import reset_metrics
 
 LEVEL = "proof"
@@ -72,6 +72,13 @@ def one(rep: Report, rng: Rng, spec: Spec, cfg0: dict):
     win = cfg.get("max_num_updates") or cfg.get("max_num_samples") or 0
     pre = random_ops(rng, spec, cfg, rng.randint(0, 8 if not win else 2 * win + 2))
     cont = random_ops(rng, spec, cfg, rng.randint(3, 6) if not win else 2 * win + 3, allow_reset=False)
+    # dtype variants: whatever dtype the history before the reset left in the states must not leak through reset()
+    dmode = rng.choice(["f32", "f32", "f64-before-reset", "f64"])
+    rep.count(f"dtype-mode:{dmode}")
+    if dmode != "f32":
+        pre = f64_ops(pre)
+        if dmode == "f64":
+            cont = f64_ops(cont, salt=2)
     reset_how = RESET_HOW[0] if rng.random() < 0.5 else RESET_HOW[1]
     v, nupd = _examine(spec, cfg, pre, cont, reset_how)
     rep.count(f"class:{spec.name}")
